@@ -21,7 +21,7 @@ var noEffectPrefixes = []string{
 	"math.", "math/bits.", "sort.SearchInts", "(*sync/atomic.", "sync/atomic.Load",
 	"0chain.net/core/encryption.Hash", "0chain.net/core/encryption.RawHash", "0chain.net/core/encryption.IsHash",
 	"encoding/hex.EncodeToString", "(*sync.WaitGroup).", "(*sync.Once).",
-	"0chain.net/core/common.Now", "0chain.net/core/common.ToTime", "0chain.net/core/common.Within",
+	"0chain.net/core/common.Now", "0chain.net/core/common.ToTime", "0chain.net/core/common.Within", "0chain.net/core/common.TimeToString",
 	"(0chain.net/core/common.Timestamp).", "0chain.net/core/common.ToSeconds", "(*0chain.net/core/common.Error).Error",
 	"(*github.com/0chain/common/core/common.Error).Error", "0chain.net/core/util.", "errors.Is", "errors.As", "errors.Unwrap",
 	"github.com/pkg/errors.Wrap", "github.com/pkg/errors.New", "github.com/pkg/errors.Errorf", "github.com/pkg/errors.Wrapf",
@@ -29,6 +29,7 @@ var noEffectPrefixes = []string{
 	"0chain.net/core/viper.Get", "0chain.net/core/config.", "(*0chain.net/core/viper.Viper).Get",
 	"encoding/json.Marshal", "encoding/hex.", "(*encoding/json.", "bytes.Equal", "bytes.Compare", "unicode.", "unicode/utf8.",
 	"(*0chain.net/chaincore/state.Transfer).Encode", "(*0chain.net/chaincore/state.SignedTransfer).Encode",
+	"0chain.net/core/datastore.ToJSON", "0chain.net/core/datastore.ToMsgpack", "(*bytes.Buffer).String", "(*bytes.Buffer).Len",
 }
 
 // results of these are known to be non-nil
@@ -37,7 +38,7 @@ var nonNilResult = []string{"fmt.Errorf", "errors.New", "github.com/0chain/commo
 	"0chain.net/core/common.NewErrInternal", "0chain.net/core/common.NewErrBadRequest", "0chain.net/core/common.NewErrNoResource"}
 
 // deterministic (result is an uninterpreted function of the arguments)
-var deterministicPrefixes = []string{"fmt.Sprintf", "fmt.Sprint", "strconv.", "strings.", "0chain.net/core/encryption.Hash",
+var deterministicPrefixes = []string{"fmt.Sprintf", "fmt.Sprint", "strconv.", "strings.", "0chain.net/core/encryption.Hash", "0chain.net/core/common.TimeToString",
 	"0chain.net/core/encryption.RawHash", "encoding/hex.EncodeToString", "math.", "math/bits.", "(time.Duration).", "(0chain.net/core/common.Timestamp)."}
 
 func hasAnyPrefix(s string, ps []string) bool {
@@ -336,6 +337,28 @@ func (vc *VC) call(in ssa.Instruction, cc *ssa.CallCommon, h *Heap) []string {
 	} else {
 		callee = cc.StaticCallee()
 	}
+	// strings.Builder: the accumulated text is ghost state $sb[object]; WriteString appends,
+	// String reads it. (A zero Builder holds the empty string: see instr Alloc.)
+	if strings.HasPrefix(name, "(*strings.Builder).") && len(cc.Args) >= 1 {
+		recv := ptrAddr(vc.val1(cc.Args[0]))
+		gname, g, ok := vc.ghostHeap(h, "$sb")
+		if ok {
+			cur := sel(gname, recv.Obj)
+			switch strings.TrimPrefix(name, "(*strings.Builder).") {
+			case "WriteString":
+				h.M["G_$sb"] = vc.define("G__sb", g.SMTSort(), sto(gname, recv.Obj, "(str_concat "+cur+" "+vc.val1(cc.Args[1])+")"))
+				r := fresh()
+				return r
+			case "String":
+				return []string{cur}
+			case "Len":
+				return []string{"(str_len " + cur + ")"}
+			case "Reset":
+				h.M["G_$sb"] = vc.define("G__sb", g.SMTSort(), sto(gname, recv.Obj, "str_empty"))
+				return nil
+			}
+		}
+	}
 	// callees the contract under verification declares opaque: unknown code
 	if root := vc.root(); vc.parent == nil && root.ct != nil && len(root.ct.Opaque) > 0 {
 		sn := ""
@@ -355,7 +378,9 @@ func (vc *VC) call(in ssa.Instruction, cc *ssa.CallCommon, h *Heap) []string {
 		if callee.Origin() != nil {
 			key = funcKey(callee.Origin())
 		}
-		if ct, ok := vc.CS.Funcs[key]; ok && !(vc.root().ct != nil && vc.root().ct.Flags["inline-all"]) {
+		// inline-all: verified callees are inlined instead of being replaced by their contracts
+		// (trusted / assumed contracts are still used - there is no body to fall back on)
+		if ct, ok := vc.CS.Funcs[key]; ok && !(vc.root().ct != nil && vc.root().ct.Flags["inline-all"] && ct.Kind == "func" && !ct.Flags["trusted"] && vc.canInline(callee)) {
 			return vc.useContract(in, ct, callee.Signature, calleeParamNames(callee, ct), cc.Args, h, resT)
 		}
 	}
@@ -482,6 +507,11 @@ func (vc *VC) effectFree(name string, cc *ssa.CallCommon, h *Heap, resT types.Ty
 		var args []string
 		var sorts []string
 		for _, a := range cc.Args {
+			// a value boxed just for this call (f(interface{}(x))): the function depends on x, not
+			// on the identity of the box
+			if mi, isMI := a.(*ssa.MakeInterface); isMI {
+				a = mi.X
+			}
 			al := vc.L.Leaves(a.Type())
 			av := vc.val(a)
 			if _, isSl := a.Type().Underlying().(*types.Slice); isSl && len(al) == 1 {
